@@ -8,25 +8,32 @@ K (model vs implementation): a duck-typed rng records every draw the implementat
   rebuilds the candidate points with the same numpy expressions, hands those exact dyadics to the extracted
   model (coq/Model/Points.v) and compares the accept / remove / no-change sequence, the sample list and the
   normalised output.  Adversarial scripted streams contain exact ties (distance exactly r, points exactly on
-  the border)."""
+  the border).
+  Model/PointsGrid.v: the same recorded streams are run through the loop with a neighbour-window acceptance test (several cell
+  sizes / half-widths satisfying r <= m * cell size; must equal the coded loop's answer; a too-small window is run as a control and
+  counted), the model's cells dictionary is compared with the implementation's local dict `cells` (picked from the calling frame of
+  the recording rng; informational, the dict is dead code), hyperuniform's jittered grid (origins, order, offset scaling, kicks,
+  crop) is compared with the returned points.  A sample of all driver answers is re-derived inside Coq (vm_compute)."""
 from lib import *  # noqa
 import signal, multiprocessing
 import koala.pointsets as ps
 
 DRIVERS = ("c19",)
-MODEL_TARGETS = ["Model/Points.vo", "Model/RngIR.vo", "Gen/RngUse.vo"]
-TARGETS = ["Proofs/PointsFacts.vo", "Proofs/RngUseFacts.vo"]
+MODEL_TARGETS = ["Model/Points.vo", "Model/PointsGrid.vo", "Model/RngIR.vo", "Gen/RngUse.vo"]
+TARGETS = ["Proofs/PointsFacts.vo", "Proofs/PointsGridFacts.vo", "Proofs/RngUseFacts.vo"]
 TRANSLATORS = ("rng_use",)
 LEVEL = "proof"
 TRUST = [
     "hand-written Gallina model coq/Model/Points.v of pointsets.py (accept/reject loop of bluenoise over an arbitrary stream, crop of hyperuniform, uniform): modelled, not verified; tied to the code by the scripted-generator correspondence run",
+    "hand-written Gallina model coq/Model/PointsGrid.v (cells dictionary of bluenoise as coded, neighbour-window variants of the loop, hyperuniform's linspace/meshgrid origins + offsets/(nx, ny) + kicks): modelled, not verified; tied by K: windowed loop = recorded implementation trace, jittered grid = returned points (1e-9), cells = the local dict observed through the recording rng's caller frame (informational: the dict is dead code)",
     "translate/rng_use.py (fail-closed ast analysis listing every np.random.* / rng.* call of pointsets.py into coq/Gen/RngUse.v): trusted to list the calls; it raises on aliasing, other imports, unknown names",
     "numpy.random.Generator (determinism given the seed, uniform in [0,1), choice returns an element), cos, sin, float norm: outside the model; candidates are an arbitrary stream in the theorems. Distances within 1e-12 of r (not exactly r) are counted and skipped in K",
     "np.random.default_rng() under `if rng is None` is assumed not to read or advance the global legacy state (numpy contract); additionally observed by S through the np.random.get_state() fingerprint",
 ]
 ASSUMPTIONS = ["a generator is supplied (rng is not None); k >= 1, nx, ny >= 1 (property quantifier)",
                "the clause 'extends to within two grid spacings of all four sides' is probabilistic: checked per grid shape over several seeds, not proved",
-               "termination of bluenoise is probabilistic and not claimed"]
+               "termination of bluenoise is probabilistic and not claimed in full: proved is only that at most 2*max_samples(nx,ny)-1 iterations change the state (every other iteration is a NoChange one: last candidate outside the domain)",
+               "today's bluenoise has no neighbour window (it scans all samples; `cells` is write-only): the window theorems are about every grid-accelerated variant of the loop, proved to go through the same states as the coded loop"]
 
 TOL = 1e-12
 TWO_PI = 2 * np.pi
@@ -91,7 +98,9 @@ def spec_output(c, out):
     if fn == "bluenoise":
         if len(out) < 1:
             bad.append(("bluenoise:shape", "no point returned"))
-        elif len(out) > 1:
+        if len(out) > max_samples(c["nx"], c["ny"]):
+            bad.append(("bluenoise:count", f"{len(out)} points returned, more than the packing bound {max_samples(c['nx'], c['ny'])} of points pairwise farther apart than 1 in [0,{c['nx']}]x[0,{c['ny']}] ({describe(c)})"))
+        if len(out) > 1:
             P = out * np.array([c["nx"], c["ny"]], dtype=float)
             D = np.linalg.norm(P[:, None, :] - P[None, :, :], axis=-1)
             D[np.diag_indices(len(P))] = np.inf
@@ -100,6 +109,11 @@ def spec_output(c, out):
                 i, j = np.unravel_index(int(np.argmin(D)), D.shape)
                 bad.append(("bluenoise:spacing", f"points {i} and {j} are at distance {m!r} <= 1 before normalisation ({describe(c)})"))
     return bad
+
+
+def max_samples(nx, ny):
+    """Model/PointsGrid.max_samples (C19_bluenoise_count_bounded)"""
+    return (3 * nx // 2 + 1) * (3 * ny // 2 + 1)
 
 
 def extent_ok(c, out):
@@ -209,6 +223,7 @@ class RecRng:
     """duck-typed numpy Generator: forwards to `src`, records every draw"""
     def __init__(self, src, cap=400000):
         self.src, self.log, self.cap = src, [], cap
+        self.cells_ref = None      # the caller's local dict `cells` (write-only bookkeeping of bluenoise), if there is one
 
     def _rec(self, ev):
         if len(self.log) >= self.cap:
@@ -223,6 +238,15 @@ class RecRng:
     def choice(self, a):
         v = self.src.choice(a)
         self._rec(("choice", [int(x) for x in a], int(v)))
+        if self.cells_ref is None:
+            # informational observation of dead bookkeeping (Model/PointsGrid.cells_after): no hook in /repo, the dict
+            # object is picked out of the calling frame; absent / renamed / not a dict => simply not observed
+            try:
+                d = sys._getframe(1).f_locals.get("cells")
+                if isinstance(d, dict):
+                    self.cells_ref = d
+            except Exception:
+                pass
         return v
 
     def pareto(self, a, size=None):
@@ -396,6 +420,17 @@ def prep_bluenoise(c):
         toks += [str(idx), str(len(C))]
         for p in C:
             toks += [hx(int(fr(p[0]) * sc)), hx(int(fr(p[1]) * sc))]
+    cells_obs = None
+    if not partial and isinstance(rec.cells_ref, dict):
+        try:
+            cells_obs = [[int(kk[0]), int(kk[1]), None if v is None else int(v)] for kk, v in rec.cells_ref.items()]
+        except Exception:
+            cells_obs = None
+    xin = None
+    if sum(len(C) for (_, C, _) in iters) <= 400:
+        xin = (int(sc), [int(fr(v) * sc) for v in x0],
+               [(int(idx), [(int(fr(p[0]) * sc), int(fr(p[1]) * sc)) for p in C]) for idx, C, _ in iters])
+    r.update(cells_obs=cells_obs, xin=xin)
     r.update(line=" ".join(toks), sc=sc, tie=tie, rerr=rerr, near_agree=near_agree,
              trace=[(oc, len(C)) for (_, C, oc) in iters],
              samples=[[int(f[0] * sc), int(f[1] * sc)] for f in F], out=out,
@@ -450,6 +485,12 @@ def compare_bluenoise(ctx, r, o):
     ctx.res.traces += 1
 
 
+def hyper_kicks(kick, log):
+    """pointsets.py:66-70 recomputed from the recorded draws (same numpy expressions)"""
+    mags, dirs = log[1][3], log[2][4]
+    return kick * np.array([mags[:, 0] * np.cos(dirs * 2 * np.pi), mags[:, 1] * np.sin(dirs * 2 * np.pi)]).T
+
+
 def hyper_final_points(nx, ny, kick, log):
     """pointsets.py:58-72 recomputed from the recorded draws (same numpy expressions)"""
     offs, mags, dirs = log[0][4], log[1][3], log[2][4]
@@ -491,6 +532,20 @@ def prep_hyper(c):
     for p in fin:
         toks += [hx(int(fr(p[0]) * sc)), hx(int(fr(p[1]) * sc))]
     r.update(line=" ".join(toks), fin=fin, out=out, sc=sc)
+    # the jittered grid as coded (Model/PointsGrid.hu_final): offsets and kicks are the inputs, origins / scaling / order the model's
+    offs = np.asarray(log[0][4], dtype=float)
+    kicks = hyper_kicks(kick, log)
+    if np.all(np.isfinite(kicks)):
+        sc2 = common_scale(np.concatenate([offs.ravel(), kicks.ravel()]))
+        oi = [(int(fr(p[0]) * sc2), int(fr(p[1]) * sc2)) for p in offs]
+        ki = [(int(fr(p[0]) * sc2), int(fr(p[1]) * sc2)) for p in kicks]
+        t2 = ["hf", hx(sc2), str(nx), str(ny), str(len(oi))]
+        for a, b in oi:
+            t2 += [hx(a), hx(b)]
+        t2.append(str(len(ki)))
+        for a, b in ki:
+            t2 += [hx(a), hx(b)]
+        r.update(hf=" ".join(t2), hfin=(int(sc2), oi, ki))
     return r
 
 
@@ -536,6 +591,210 @@ def compare_hyper(ctx, r, o):
     if nborder:
         ctx.res.extra["hyperuniform_border_points_returned"] = ctx.res.extra.get("hyperuniform_border_points_returned", 0) + nborder
     ctx.res.traces += 1
+
+
+# ------------------------------------------------------------------ K for Model/PointsGrid.v
+# (a, b, m): cell size (b/a) r, half-width m, all with r <= m * cell size (C19_bluenoise_windowed_run_is_coded_run)
+WINDOWS = [(1, 1, 1), (3, 2, 2), (2, 1, 2), (1, 1, 3), (7, 5, 2), (5, 4, 2)]
+
+
+def compare_grid(ctx, r, o, more):
+    """the windowed loop must give the answer of the coded loop (which compare_bluenoise ties to the implementation);
+    the cells dictionary of the model vs the local dict of the implementation (informational, dead code);
+    termination measure and packing bound on the implementation's trace"""
+    c = r["case"]
+    ex = ctx.res.extra
+    g = ex.setdefault("grid_model", {"windowed_runs_equal_coded_run": 0, "window_too_small_runs": 0, "window_too_small_runs_that_differ": 0,
+                                     "cells_dicts_compared_with_local_dict": 0, "cells_dicts_differ": 0, "cells_not_observed": 0,
+                                     "cells_with_two_samples_overwritten": 0})
+    if o.get("ok") != ["1"]:
+        return
+    if "bw" in more:
+        (a, b, m), ow = more["bw"]
+        if any(ow.get(kk) != o.get(kk) for kk in ("ok", "samples", "active", "finished", "trace")):
+            ctx.k_mismatch(f"bluenoise: the loop with the {2 * m + 1}x{2 * m + 1} neighbour window over cells of size {b}/{a} differs from the coded loop (and so from the implementation's recorded run)", c)
+            return
+        g["windowed_runs_equal_coded_run"] += 1
+        ctx.res.traces += 1
+    if "bwneg" in more:
+        _, ow = more["bwneg"]
+        g["window_too_small_runs"] += 1
+        if any(ow.get(kk) != o.get(kk) for kk in ("ok", "samples", "active", "finished", "trace")):
+            g["window_too_small_runs_that_differ"] += 1
+    na = sum(1 for t in r["trace"] if t[0] == "A")
+    nr = sum(1 for t in r["trace"] if t[0] == "R")
+    bound = max_samples(c["nx"], c["ny"])
+    if na + nr > 2 * bound - 1 or len(r["samples"]) != 1 + na or (not r["partial"] and nr != len(r["samples"])):
+        ctx.k_mismatch(f"bluenoise: implementation trace contradicts the count theorems: {na} accepts, {nr} removes, {len(r['samples'])} samples, packing bound {bound}", c)
+        return
+    if "cl" in more:
+        _, oc = more["cl"]
+        cur = Cursor(oc["cells"])
+        mc = cur.list(lambda: [cur.z(), cur.z(), cur.onat()])
+        if unhx(oc["max"][0]) != bound:
+            ctx.k_mismatch("max_samples: model and harness disagree", c)
+            return
+        filled = sum(1 for e in mc if e[2] is not None)
+        g["cells_with_two_samples_overwritten"] += len(r["samples"]) - filled
+        if r.get("cells_obs") is None:
+            g["cells_not_observed"] += 1
+        else:
+            g["cells_dicts_compared_with_local_dict"] += 1
+            if mc != r["cells_obs"]:
+                g["cells_dicts_differ"] += 1
+                if g["cells_dicts_differ"] == 1:
+                    print(f"NOTE C19: the local dict `cells` of bluenoise differs from Model/PointsGrid.cells_after on {describe_scripted(c)} "
+                          f"(informational: the dict is never read, no output depends on it)", flush=True)
+                    ex["cells_first_difference"] = {"case": c, "model": mc[:12], "implementation": r["cells_obs"][:12]}
+
+
+def describe_scripted(c):
+    return f"bluenoise(k={c['k']}, nx={c['nx']}, ny={c['ny']}) on a {c['mode']} stream (seed {c['seed']})"
+
+
+def compare_hyper_grid(ctx, r, o):
+    """Model/PointsGrid.hu_final / hyperuniform_full (exact, from the recorded offsets and the kicks) vs the kicked points rebuilt
+    with the code's numpy expressions and vs the implementation's output; 1e-9 relative; crop decisions must coincide unless an
+    exact coordinate is within 1e-12 of 0 or 1"""
+    c = r["case"]
+    g = ctx.res.extra.setdefault("hyper_grid_model", {"runs": 0, "points": 0, "returned": 0, "max_abs_err": 0.0})
+    dx, dy = unhx(o["den"][0]), unhx(o["den"][1])
+    cur = Cursor(o["final"])
+    fin_m = cur.list(lambda: (Fraction(cur.z(), dx), Fraction(cur.z(), dy)))
+    cur = Cursor(o["kept"])
+    kept_m = cur.list(lambda: (Fraction(cur.z(), dx), Fraction(cur.z(), dy)))
+    fin, out = r["fin"], r["out"]
+    if len(fin_m) != len(fin):
+        ctx.k_mismatch(f"hyperuniform: the model's grid has {len(fin_m)} points, the implementation's {len(fin)}", c)
+        return
+    worst = 0.0
+    for j, (pm, pf) in enumerate(zip(fin_m, fin)):
+        for a, b in zip(pm, pf):
+            e = abs(float(a - Fraction(float(b))))
+            worst = max(worst, e / max(1.0, abs(float(b))))
+            if e > 1e-9 * max(1.0, abs(float(b))):
+                ctx.k_mismatch(f"hyperuniform: point {j} of the jittered grid: model {float(a)!r}, rebuilt from the draws with the code's expressions {float(b)!r}", c)
+                return
+    # crop decisions point by point: the model's (exact) against the implementation's, read off its output (a subsequence of
+    # the grid points, in order); a disagreement counts only if the point is not within 1e-12 of the border
+    inside_m = [0 < p[0] < 1 and 0 < p[1] < 1 for p in fin_m]
+    if sum(inside_m) != len(kept_m):
+        ctx.k_mismatch("hyperuniform: the model's hyperuniform_full is not the inside part of its hu_final", c)
+        return
+    jj, inside_i = 0, []
+    for pf in fin:
+        hit = jj < len(out) and abs(float(out[jj][0]) - float(pf[0])) <= 1e-9 * max(1.0, abs(float(pf[0]))) \
+            and abs(float(out[jj][1]) - float(pf[1])) <= 1e-9 * max(1.0, abs(float(pf[1])))
+        inside_i.append(bool(hit))
+        jj += 1 if hit else 0
+    if jj != len(out):
+        ctx.k_mismatch(f"hyperuniform: {len(out) - jj} returned point(s) are not grid points of the model (in order)", c)
+        return
+    eps = Fraction(1, 10 ** 12)
+    for j, (fm, fi) in enumerate(zip(inside_m, inside_i)):
+        if fm != fi:
+            if any(min(abs(a), abs(a - 1)) < eps for a in fin_m[j]):
+                ctx.res.skip("hyperuniform-exact-coordinate-within-1e-12-of-border")
+                return
+            ctx.k_mismatch(f"hyperuniform: grid point {j} = {tuple(float(a) for a in fin_m[j])} is {'inside' if fm else 'outside'} the open unit square but the implementation {'returned' if fi else 'dropped'} it", c)
+            return
+    g["runs"] += 1
+    g["points"] += len(fin)
+    g["returned"] += len(out)
+    g["max_abs_err"] = max(g["max_abs_err"], worst)
+    ctx.res.traces += 1
+
+
+# ------------------------------------------------------------------ extraction cross-check (DESIGN 1.3)
+def coq_crosscheck(ctx):
+    """A sample of the c19 driver's answers collected in ctx.xc19 during the K phase is re-derived INSIDE Coq by vm_compute on
+    the same literals: run_trace (state + outcome list), normalise, run_trace_window, cells_after, hyperuniform_crop /
+    inside_open_unit, hu_final_l / hyperuniform_full_l / hu_den, uniform's length."""
+    import xcheck as X
+    pool, ctx.xc19 = ctx.xc19, None
+    quick = ctx.tier == "quick"
+    rng = np.random.default_rng([ctx.seed, 19, 99])
+
+    def pick(xs, k):
+        return [xs[i] for i in sorted(rng.choice(len(xs), size=min(len(xs), k), replace=False).tolist())] if len(xs) else []
+    zp, nl = X.zpair, X.natlist
+    body = ["Definition qq (q : Q) : Z * Z := (Qnum q, Zpos (Qden q)).",
+            "Definition qq2 (p : Q * Q) := (qq (fst p), qq (snd p))."]
+    g = lambda lhs, rhs: body.append(X.goal(lhs, rhs))
+    bn = [t for t in pool if t[0]["case"]["fn"] == "bluenoise" and t[0].get("xin") and t[1].get("ok") == ["1"] and len(t[0]["trace"]) >= 2]
+    # prefer runs in which something happens
+    bn.sort(key=lambda t: -min(len(t[0]["samples"]), 6))
+    bn = pick(bn[:max(8, len(bn) // 2)], 6 if quick else 60)
+    nb = 0
+    for n_, (r, o, more) in enumerate(bn):
+        c = r["case"]
+        sc, x0, its = r["xin"]
+        cur = Cursor(o["samples"])
+        ms = cur.list(lambda: (cur.z(), cur.z()))
+        cur = Cursor(o["active"])
+        act = cur.list(cur.int)
+        cur = Cursor(o["trace"])
+        tr = cur.list(cur.next)
+        outs = []
+        for t, (idx, cands) in zip(tr, its):
+            outs.append("Remove" if t == "R" else "NoChange" if t == "N" else f"(Accept {X.nat(int(t[1:]))} {zp(cands[int(t[1:])])})")
+        ITS = X.lst(lambda it: f"({X.nat(it[0])}, {X.lst(zp, it[1])})", its)
+        body.append(f"Definition I{n_} : list (nat * list pt) := {ITS}.")
+        answer = f"Some (mkState {X.lst(zp, ms)} {nl(act)}, [{'; '.join(outs)}])"
+        args = f"{X.z(sc)} {X.z(c['nx'])} {X.z(c['ny'])} {X.nat(c['k'])} (init {zp(x0)}) I{n_}"
+        g(f"run_trace {args}", answer)
+        g(f"finished (mkState {X.lst(zp, ms)} {nl(act)})", X.boolean(o["finished"] == ["1"]))
+        if "normalised" in o:
+            cur = Cursor(o["normalised"])
+            mq = cur.list(lambda: ((cur.z(), cur.z()), (cur.z(), cur.z())))
+            g(f"map (fun p => qq2 (normalise {X.z(sc)} {X.z(c['nx'])} {X.z(c['ny'])} p)) {X.lst(zp, ms)}", X.lst(X.pair(zp, zp), mq))
+        if "bw" in more:
+            (a, b, m), ow = more["bw"]
+            if ow.get("trace") == o.get("trace") and ow.get("samples") == o.get("samples") and ow.get("active") == o.get("active"):
+                g(f"run_trace_window {X.z(a)} {X.z(b)} {X.z(m)} {args}", answer)
+        if "cl" in more:
+            cur = Cursor(more["cl"][1]["cells"])
+            mc = cur.list(lambda: ((cur.z(), cur.z()), cur.onat()))
+            g(f"cells_after {X.z(sc)} {X.z(c['nx'])} {X.z(c['ny'])} {X.lst(zp, ms)}", X.lst(X.pair(zp, X.option(X.nat, "nat")), mc))
+            g(f"max_samples {X.z(c['nx'])} {X.z(c['ny'])}", X.z(unhx(more["cl"][1]["max"][0])))
+        nb += 1
+    hu = [t for t in pool if t[0]["case"]["fn"] == "hyperuniform" and t[0]["case"]["nx"] * t[0]["case"]["ny"] <= 60 and "keep" in t[1]]
+    nh = 0
+    for n_, (r, o, more) in enumerate(pick(hu, 4 if quick else 40)):
+        c = r["case"]
+        sc = r["sc"]
+        pts = [(int(fr(p[0]) * sc), int(fr(p[1]) * sc)) for p in r["fin"]]
+        body.append(f"Definition P{n_} : list pt := {X.lst(zp, pts)}.")
+        cur = Cursor(o["crop"])
+        crop = cur.list(lambda: (cur.z(), cur.z()))
+        g(f"hyperuniform_crop {X.z(sc)} P{n_}", X.lst(zp, crop))
+        g(f"map (inside_open_unit {X.z(sc)}) P{n_}", X.lst(X.boolean, [t == "1" for t in o["keep"][1:]]))
+        cur = Cursor(o["unit"])
+        un = cur.list(lambda: ((cur.z(), cur.z()), (cur.z(), cur.z())))
+        g(f"map qq2 (hyperuniform {X.z(sc)} P{n_})", X.lst(X.pair(zp, zp), un))
+        if "hf" in more and "hfin" in r:
+            sc2, oi, ki = r["hfin"]
+            oh = more["hf"][1]
+            cur = Cursor(oh["final"])
+            fm = cur.list(lambda: (cur.z(), cur.z()))
+            cur = Cursor(oh["kept"])
+            km = cur.list(lambda: (cur.z(), cur.z()))
+            body.append(f"Definition O{n_} : list pt := {X.lst(zp, oi)}.")
+            body.append(f"Definition K{n_} : list pt := {X.lst(zp, ki)}.")
+            hargs = f"{X.z(sc2)} {X.nat(c['nx'])} {X.nat(c['ny'])}"
+            g(f"hu_final_l {hargs} O{n_} K{n_}", X.lst(zp, fm))
+            g(f"hyperuniform_full_l {hargs} O{n_} K{n_}", X.lst(zp, km))
+            g(f"(hu_den {X.z(sc2)} {X.nat(c['nx'])}, hu_den {X.z(sc2)} {X.nat(c['ny'])})", zp((unhx(oh["den"][0]), unhx(oh["den"][1]))))
+        nh += 1
+    for n in (0, 1, 7, 100):
+        o = run_driver(ctx.exe["c19"], [f"un {n}"])[0]
+        g(f"length (uniform {X.nat(n)} (fun _ => (0, 0)))", X.nat(int(o["len"][0])))
+    res = ctx.res
+    if os.environ.get("C19_KEEP_CASES"):
+        open(os.environ["C19_KEEP_CASES"], "w").write("\n".join(body) + "\n")
+    res.extra["extraction_crosscheck_goals_vm_compute"] = X.compile_goals("c19", "Model.Points Model.PointsGrid", body, "c19", stdlib="List ZArith Bool QArith")
+    res.extra["extraction_crosscheck_cases"] = {"bluenoise_runs": nb, "hyperuniform_runs": nh, "uniform": 4, "pool": len(pool)}
+    res.extra["extraction_crosscheck_wall_s"] = X.LAST_WALL
 
 
 def prep(c):
@@ -724,13 +983,38 @@ def evaluate_scripted(ctx, cases):
         if "line" in r:
             lines.append(r["line"])
             keep.append(r)
+    # extra model runs on the same inputs (Model/PointsGrid.v): the loop with a neighbour-window test (must be the coded
+    # loop), the cells dictionary, hyperuniform's jittered grid
+    extra = []
+    for n_, r in enumerate(keep):
+        if r["case"]["fn"] == "bluenoise":
+            a, b, m = WINDOWS[n_ % len(WINDOWS)]
+            extra.append(("bw", n_, f"bw {hx(a)} {hx(b)} {hx(m)} " + r["line"][3:], (a, b, m)))
+            if len(r["line"]) < 6000:
+                extra.append(("bwneg", n_, f"bw 3 2 1 " + r["line"][3:], (3, 2, 1)))
+            if not r["partial"]:
+                toks = ["cl", hx(r["sc"]), hx(r["case"]["nx"]), hx(r["case"]["ny"]), str(len(r["samples"]))]
+                for x, y in r["samples"]:
+                    toks += [hx(x), hx(y)]
+                extra.append(("cl", n_, " ".join(toks), None))
+        elif "hf" in r:
+            extra.append(("hf", n_, r["hf"], None))
+    all_lines = lines + [e[2] for e in extra]
     # longest inputs first and strided over the driver processes: balanced load
-    order = sorted(range(len(lines)), key=lambda i: -len(lines[i]))
-    so = run_driver_parallel(ctx.exe["c19"], [lines[i] for i in order], jobs=min(16, os.cpu_count() or 8))
-    outs = [None] * len(lines)
+    order = sorted(range(len(all_lines)), key=lambda i: -len(all_lines[i]))
+    so = run_driver_parallel(ctx.exe["c19"], [all_lines[i] for i in order], jobs=min(16, os.cpu_count() or 8))
+    outs = [None] * len(all_lines)
     for i, o in zip(order, so):
         outs[i] = o
+    xouts = outs[len(lines):]
+    outs = outs[:len(lines)]
+    more = {}
+    for (kind, n_, _, meta), o in zip(extra, xouts):
+        if "error" in o:
+            raise RuntimeError(f"c19 driver error {o['error']} on {kind} of {keep[n_]['case']}")
+        more.setdefault(n_, {})[kind] = (meta, o)
     st = res.extra.setdefault("scripted_trace_totals", {"iterations": 0, "accepted": 0, "removed": 0, "nochange": 0, "candidates": 0, "exact_ties_r": 0})
+    keep_index = {id(r): n_ for n_, r in enumerate(keep)}
     for r, o in zip(keep, outs):
         if r["case"]["fn"] == "bluenoise":
             compare_bluenoise(ctx, r, o)
@@ -741,11 +1025,18 @@ def evaluate_scripted(ctx, cases):
             st["candidates"] += r["ncand"]
             st["exact_ties_r"] += 1 if r["tie"] else 0
             st["near_ties_same_side"] = st.get("near_ties_same_side", 0) + r["near_agree"]
+            compare_grid(ctx, r, o, more.get(keep_index[id(r)], {}))
             if len(r["trace"]) > 3:
                 res.sample({"call": f"bluenoise(k={r['case']['k']}, nx={r['case']['nx']}, ny={r['case']['ny']}) on a {r['case']['mode']} stream",
                             "iterations": len(r["trace"]), "trace_head": ["%s%d" % t for t in r["trace"][:8]], "points": len(r["out"])}, cap=8)
         else:
             compare_hyper(ctx, r, o)
+            if "hf" in more.get(keep_index[id(r)], {}):
+                compare_hyper_grid(ctx, r, more[keep_index[id(r)]]["hf"][1])
+    pool = getattr(ctx, "xc19", None)
+    if pool is not None:
+        for r, o in zip(keep, outs):
+            pool.append((r, o, more.get(keep_index[id(r)], {})))
 
 
 def evaluate_uniform_model(ctx, tier):
@@ -765,8 +1056,10 @@ def run(ctx):
                     "K: the same functions driven by a recording duck-typed rng (real stream, and adversarial streams with exact ties), accept/reject sequence compared with the extracted model. "
                     "non-trivial = distinct call with >= 2 returned points (bluenoise: at least one accepted candidate) or >= 1 point (hyperuniform, uniform)")
     evaluate_real(ctx, real_cases(ctx.tier, ctx.seed))
+    ctx.xc19 = []
     evaluate_scripted(ctx, scripted_cases(ctx.tier, ctx.seed))
     evaluate_uniform_model(ctx, ctx.tier)
+    coq_crosscheck(ctx)      # extraction cross-check: a sample of the driver's answers re-derived inside Coq
 
 
 def search(ctx):
